@@ -28,7 +28,7 @@ var rec = ev.New("C13",
 var schema = sw.NewSchema()
 var eng = fakesql.NewFromSchema(schema)
 
-func TestMain(m *testing.M) { code := m.Run(); rec.Flush(); os.Exit(code) }
+func TestMain(m *testing.M) { sw.WideTimes = true; code := m.Run(); rec.Flush(); os.Exit(code) }
 
 func features(table string, row interface{}) (nt bool, labels []string) {
 	v := reflect.ValueOf(row).Elem()
